@@ -162,6 +162,28 @@ def _emit(case, res):
             # exotic (non line-breaking for a file reader) control/space characters inside comments
             ch = rr.choice(["\x0c", "\x0b", "\x1c", "\x1d", "\x1e", "\x85", "\u2028", "\u2029", "\xa0"])
             new = new.replace("-- c", "-- " + ch + "c", rr.randint(1, 3))
+        if case.get("level", 0) and rr.random() < 0.35:
+            # delimited comments in whitespace gaps: one, or two on the same line with code between them, or one spanning two lines
+            from harness import lexer
+            from harness.gen import layout
+
+            atoms = lexer.lex(new)
+            plain = lambda a: a.kind not in ("comment", "pre", "dcomment")  # noqa: E731
+            cand = [i for i in range(1, len(atoms)) if plain(atoms[i]) and plain(atoms[i - 1]) and new[atoms[i - 1].end : atoms[i].start] not in ("",) and "\n" not in new[atoms[i - 1].end : atoms[i].start]]
+            if cand:
+                i = rr.choice(cand)
+                edits = [[i, "gap", " /* d%d */ " % i]]
+                mode = rr.random()
+                if mode < 0.5:
+                    later = [j for j in cand if j > i and "\n" not in new[atoms[i].start : atoms[j].start]]
+                    if later:
+                        j = rr.choice(later[:4])
+                        edits.append([j, "gap", " /* e%d */" % j + rr.choice(["", " "])])
+                        res["labels"]["two_delimited_comments_on_one_line"] = 1
+                elif mode < 0.7:
+                    edits = [[i, "gap", " /* d%d\n   continued */ " % i]]
+                new = layout.apply_edits(new, edits, atoms)
+                res["labels"]["delimited_comment_inserted"] = 1
         try:
             data = (new.replace("\n", case["eol"]) + case["eol"]).encode(case["enc"])
         except UnicodeEncodeError:
@@ -188,6 +210,11 @@ def _emit(case, res):
         oFile = vsgapi.VF.vhdlFile(list(lines), vsgapi.CLA(), fn, None, vsgapi.get_config()[0])
     except common.exceptions.ClassifyError:
         res["labels"]["rejected_by_vsg"] = 1
+        return res
+    except Exception:
+        if not res["labels"].get("delimited_comment_inserted"):
+            raise
+        res["labels"]["classifier_crash_with_delimited_comment_(C19)"] = 1  # not accepted: outside C04's domain
         return res
     res["labels"]["emit_level_%d" % case.get("level", 0)] = 1
     out = oFile.get_lines()[1:]
